@@ -11,7 +11,7 @@ from .common.httpgen import generate as _gen
 from .common.codec import hx, unhx
 
 PROPERTY = "C01"
-LEAN_MODULES = ["AioProps.C01", "AioProps.C01Run", "AioProps.C01Complete", "AioProps.C01Body", "AioProps.C01Length"]
+LEAN_MODULES = ["AioProps.C01", "AioProps.C01Run", "AioProps.C01Complete", "AioProps.C01Body", "AioProps.C01Length", "AioProps.C01Closed"]
 THEOREMS = [
     "Aio.Http.accepted_request_is_strict",
     "Aio.Http.cl_with_te_rejected",
@@ -31,6 +31,9 @@ THEOREMS = [
     "Aio.Http.chunked_body_is_strict",
     "Aio.Http.content_length_body_exact",
     "Aio.Http.content_length_body_events",
+    "Aio.Http.closed_feedLoop",
+    "Aio.Http.closed_emits_nothing",
+    "Aio.Http.swallowed_error_closes",
 ]
 RULE = ("request streams from the grammar (1-3 pipelined requests: origin/absolute/asterisk/authority targets, CL and "
         f"chunked bodies with extensions and trailers) and each of the {len(H.MUTATIONS)} mutation classes (duplicate/sign/"
